@@ -213,6 +213,22 @@ theorem OInv.step {g g' : GState} {e : Ev} (ho : OInv g) (hk : KInv g.s) (hi : H
   | setLocal t k v => obtain ⟨n, _, _, _, _, _, e'⟩ := setLocal_ok hs; rw [e']; exact ho.frame (fun _ => rfl) rfl (Nat.le_refl _) rfl
   | replaceLocal t k v => obtain ⟨n, _, _, _, _, _, e'⟩ := replaceLocal_ok hs; rw [e']; exact ho.frame (fun _ => rfl) rfl (Nat.le_refl _) rfl
   | getLocal t k => obtain ⟨n, _, _, _, _, _, e'⟩ := getLocal_ok hs; rw [e']; exact ho.frame (fun _ => rfl) rfl (Nat.le_refl _) rfl
+  | createFail a =>
+    obtain ⟨_, _, e'⟩ := createFail_ok hs; rw [e']
+    refine ho.frame ?_ rfl (Nat.le_succ _) rfl
+    intro h; simp only
+    by_cases e : h = g.s.nH
+    · subst e; simp [hi.hB _ (Nat.le_refl _)]
+    · rw [upd_ne _ _ e]
+  | joinFail a h => obtain ⟨_, _, _, _, _, e'⟩ := joinFail_ok hs; rw [e']; exact ho.frame (fun _ => rfl) rfl (Nat.le_refl _) rfl
+  | tlsFail t k gt => obtain ⟨_, _, _, _, _, e'⟩ := tlsFail_ok hs; rw [e']; exact ho.frame (fun _ => rfl) rfl (Nat.le_refl _) rfl
+  | currentFail t =>
+    obtain ⟨_, _, e'⟩ := currentFail_ok hs; rw [e']
+    refine ho.frame ?_ rfl (Nat.le_succ _) rfl
+    intro h; simp only
+    by_cases e : h = g.s.nH
+    · subst e; simp [hi.hB _ (Nat.le_refl _)]
+    · rw [upd_ne _ _ e]
 
 /-- a thread that holds a reference of its own is among the pooled holders -/
 theorem OInv.pooled {g : GState} (ho : OInv g) {a h : Nat} (hp : 0 < g.owns a h) : 0 < (g.s.hdl h).userRefs := by
@@ -228,6 +244,7 @@ theorem PermittedT.permitted {g : GState} {e : Ev} (ho : OInv g) (hp : Permitted
   | ref a h => exact hp.imp ho.pooled id
   | join a h => exact ⟨hp.1.imp ho.pooled id, hp.2⟩
   | unref a h => exact ho.pooled hp
+  | joinFail a h => exact ⟨hp.1.imp ho.pooled id, hp.2⟩
   | _ => trivial
 
 theorem TReach.inv {g : GState} (h : TReach g) : DReach g.s ∧ OInv g := by
